@@ -358,11 +358,11 @@ func (s *psim) request() {
 	}
 	if mode == 1 && k.Bool(1, 6, "wire-byte-fault") && len(enc) > 0 {
 		enc = cp(enc)
-		switch k.Choose(3, "wire-fault-kind") {
+		// (no bit flips on the wire: a flip in a compact length prefix makes pkg/scale
+		// allocate up to a gigabyte - C12's subject - and stalls the worker; bit flips
+		// are applied to the nodes themselves instead)
+		switch k.Choose(2, "wire-fault-kind") {
 		case 0:
-			enc[k.Choose(len(enc), "wire-flip-pos")] ^= 1 << uint(k.Choose(8, "wire-flip-bit"))
-			k.Fault("wire-bit-flip")
-		case 1:
 			enc = enc[:k.Choose(len(enc), "wire-cut")]
 			k.Fault("wire-truncated")
 		default:
